@@ -490,7 +490,7 @@ def gen_stack(rng, flags, family=None):
                 cur = o[1]
         layers.append({"w": "mix", "mixup_p": rng.choice([1.0, 1.0, 0.5, 0.7, 0.3]), "mixup_alpha": rng.choice([0.8, 1.0, 2.0, 0.4]),
                        "seed": gen_seed(rng), "in": cur})
-        if rng.random() < 0.35:
+        if rng.random() < 0.5:
             o = gen_tree(rng, cur, flags)
             layers.append({"w": "xtw", "item": "x", "tree": o[0], "seed": gen_seed(rng), "in": cur})
         mode = rng.choice(["x class", "x class", "class x", "x", "class", "index x class", "class index"])
@@ -627,3 +627,21 @@ def gen_probe(rng):
         layers.append(l)
     return {"family": "probe", "n": n, "data": data, "layers": layers, "mode": mode, "return_ctx": False,
             "probe": {"layer": pos, "rule": rule, "shape": shape, "wrapper": wrapper}}
+
+
+def gen_fused(rng, flags):
+    """a seeded XTransformWrapper *above* a seeded KDMixWrapper, read through the fused accessor (modes holding x and class):
+    the transform adds noise on every call, so a generator that is not injected on that path is visible at once"""
+    n = rng.choice([3, 4, 5, 6])
+    T = H.t_img("tensor", rng.choice([1, 3]), rng.choice([8, 12, 16]), rng.choice([8, 16]))
+    ncls = rng.choice([2, 3, n])
+    data = {"T": T, "seed": rng.randrange(10 ** 6), "const": False, "classes": [rng.randrange(ncls) for _ in range(n)], "n_classes": ncls}
+    layers = []
+    if rng.random() < 0.3:
+        layers.append(gen_remap(rng, n))
+    if rng.random() < 0.3:
+        layers.append({"w": "xtw", "item": "x", "tree": probe_tree(rng.choice(PROBE_SHAPES[:4]), T), "seed": gen_seed(rng), "in": T})
+    layers.append({"w": "mix", "mixup_p": rng.choice([1.0, 0.5, 0.7]), "mixup_alpha": rng.choice([0.8, 1.0, 2.0]), "seed": gen_seed(rng), "in": T})
+    layers.append({"w": "xtw", "item": "x", "tree": probe_tree(rng.choice(PROBE_SHAPES), T), "seed": gen_seed(rng), "in": T})
+    mode = rng.choice(["x class", "x class", "class x", "index x class", "class x index", "x"])
+    return {"family": "fused", "n": n, "data": data, "layers": layers, "mode": mode, "return_ctx": rng.random() < 0.3}
